@@ -335,8 +335,8 @@ func TestCheck(t *testing.T) {
 	e.Set("checker_cmd", mc.Cmd)
 
 	// 2. recorded runs of the real code, validated by TLC against the contract
-	maxN := ev.Pick(5, 16)
-	maxAllComp := ev.Pick(6, 8)
+	maxN := ev.Pick(5, 9)
+	maxAllComp := ev.Pick(6, 7)
 	b := &tv.Batch{}
 	var cases []caseSpec
 	add := func(cs caseSpec) {
@@ -444,6 +444,20 @@ func TestCheck(t *testing.T) {
 		}
 		rec(0, nil, nil)
 	}
+	// the limits 10..16 of the property's range with boundary lengths and boundary-placed chunkings (thorough) 
+	if thorough {
+		for n := 10; n <= 16; n++ {
+			for l := n - 1; l <= n+3; l++ {
+				for _, ch := range chunkings(l) {
+					for _, st := range styles(len(ch), false) {
+						for _, p := range paths {
+							add(caseSpec{Kind: "limit", N: n, Lens: []int{l}, Chunks: [][]int{ch}, Styles: []style{st}, Closable: []bool{true}, Buf: n + 1, Path: p})
+						}
+					}
+				}
+			}
+		}
+	}
 	// random larger ones
 	for i := 0; i < ev.Pick(300, 5000); i++ {
 		n := rng.Intn(200)
@@ -473,7 +487,7 @@ func TestCheck(t *testing.T) {
 		e.Sample(tv.M{"case": cases[i], "trace": b.TraceStrings(i)})
 	}
 	fmt.Printf("recorded %d traces, %d events\n", b.Len(), b.Lines())
-	rej, res := tv.Validate(tlc.Opts{Dir: "Streams", Module: "TraceStreams", Config: "TraceStreams.cfg", Workers: 16, Timeout: ev.Pick(5*time.Minute, 30*time.Minute), HeapMB: 8192}, b)
+	rej, res := tv.ValidateChunked(tlc.Opts{Dir: "Streams", Module: "TraceStreams", Config: "TraceStreams.cfg", Workers: 16, Timeout: ev.Pick(5*time.Minute, 30*time.Minute), HeapMB: 8192}, b)
 	fmt.Printf("TLC trace validation: ok=%v violation=%v rejects=%d distinct=%d wall=%s %s\n", res.OK, res.Violation, len(rej), res.Distinct, res.Wall.Round(time.Millisecond), res.What)
 	if !res.OK && !res.Violation {
 		e.Inconclusive("trace validation did not run: " + res.What)
@@ -525,7 +539,7 @@ func selfTest(t *testing.T, e *ev.Evidence, cases []caseSpec) {
 	}
 	b.AppendTrace(mutA)
 	b.AppendTrace(mutB)
-	rej, res := tv.Validate(tlc.Opts{Dir: "Streams", Module: "TraceStreams", Config: "TraceStreams.cfg", Workers: 2, Timeout: 2 * time.Minute}, b)
+	rej, res := tv.ValidateChunked(tlc.Opts{Dir: "Streams", Module: "TraceStreams", Config: "TraceStreams.cfg", Workers: 2, Timeout: 2 * time.Minute}, b)
 	got := map[int]bool{}
 	for _, r := range rej {
 		got[r.Trace] = true
